@@ -127,7 +127,10 @@ fn entry(g: &AnyG, v: usize) -> String {
 fn post(g: &AnyG, args: &[usize]) -> String {
     let keys = with_g!(g, x => x.keys());
     let touched: Vec<String> = args.iter().filter(|v| keys.contains(v)).map(|v| entry(g, *v)).collect();
-    format!("{} ; {}", show_nats(&keys), touched.join(" "))
+    // len() and is_empty() must agree with keys(); a disagreement is made visible (the model never prints it)
+    let (len, empty) = with_g!(g, x => (x.len(), x.is_empty()));
+    let odd = if len != keys.len() || empty != keys.is_empty() { format!(" LEN={len} IS_EMPTY={empty}") } else { String::new() };
+    format!("{}{odd} ; {}", show_nats(&keys), touched.join(" "))
 }
 
 fn op_args(cmd: &str, rest: &[&str]) -> Vec<usize> {
@@ -277,6 +280,13 @@ fn exec_hex(ws: &[&str]) -> String {
         ["index", h, i] => {
             let (Some(x), Some(b), Ok(i)) = (parse_hex_tok(h), tok_bytes(h), i.parse::<usize>()) else { return bad() };
             format!("{} ; {}", show_opt_byte(guard(|| x[i])), show_opt_byte(guard(|| b[i])))
+        }
+        ["indexmut", h, i] => {
+            // IndexMut: write 0xEE at i, then the bytes; the oracle does the same on the byte vector
+            let (Some(mut x), Some(mut b), Ok(i)) = (parse_hex_tok(h), tok_bytes(h), i.parse::<usize>()) else { return bad() };
+            let l = guard(move || { x[i] = 0xEE; x.bytes().to_vec() });
+            let r = guard(move || { b[i] = 0xEE; b });
+            format!("{} ; {}", show_opt_bytes(l), show_opt_bytes(r))
         }
         ["byteat", h, i] => {
             let (Some(x), Some(b), Ok(i)) = (parse_hex_tok(h), tok_bytes(h), i.parse::<usize>()) else { return bad() };
